@@ -52,6 +52,16 @@ def _call(case):
     ctl = Controller(xs, case['threads'], chunksize, case['priority'], case.get('raising', ()), exc=case.get('exc', 'Boom'),
                      returning_exc=case.get('ret_exc', ()))
     arg = (x for x in xs) if case.get('gen') else list(xs)
+    if (case.get('form') or {}).get('nested_input') and case['fn'] == 'threading':
+        # (utils.iter.parallel_map draws its input inside its running event loop, so it cannot be nested this way - a
+        #  limit of that helper on the pinned tree, not asserted)
+        # a pipeline: the input is a lazy generator whose own first step is a (small, uncontrolled) parallel_map
+        def _staged(xs_=xs):
+            inner = tthr.parallel_map(lambda v: v + 1, [1, 2, 3], threads=2, use_tqdm=False)
+            if inner != [2, 3, 4]:
+                raise RuntimeError(f'inner parallel_map returned {inner!r}')
+            yield from xs_
+        arg = _staged()
     result, error = None, None
     import asyncio
     import signal
@@ -216,7 +226,7 @@ def cases(draw):
     exc = draw(st.sampled_from(['Boom', 'Boom', 'Stop', 'Key']))
     ret_exc = sorted(draw(st.sets(st.integers(0, n - 1), max_size=2))) if n and draw(st.integers(0, 4)) == 0 else []
     # call forms: progress bar on (the default), sort / chunksize left at their defaults, total=, desc=, parallel_starmap
-    form = {k: draw(st.integers(0, 3)) == 0 for k in ('tqdm', 'default_sort', 'default_chunksize', 'total', 'desc', 'starmap')}
+    form = {k: draw(st.integers(0, 3)) == 0 for k in ('tqdm', 'default_sort', 'default_chunksize', 'total', 'desc', 'starmap', 'nested_input')}
     if draw(st.booleans()):
         form = {}
     return {'fn': fn, 'n': n, 'none_at': none_at, 'gen': draw(st.booleans()), 'threads': threads, 'chunksize': chunksize, 'sort': sort,
